@@ -21,7 +21,7 @@ def main():
     for p in sorted(glob.glob(os.path.join(driver.REPLAY_DIR, prop, "*.case"))):
         if p.endswith(".raw.case"):
             continue
-        txt = open(p).read()
+        txt = open(p, errors="replace").read()
         m = re.search(r"^# key: (.*)$", txt, re.M)
         if m and m.group(1).strip() == key:
             cands.append(p)
